@@ -1,7 +1,9 @@
 package rest
 
 import (
+	"errors"
 	"net/http"
+	"sync"
 	"time"
 
 	"github.com/gorilla/websocket"
@@ -27,6 +29,14 @@ const (
 	maxMessageSizeV1 = 512
 )
 
+var (
+	// errListenerClosed tells the hub to drop a listener whose socket is gone.
+	errListenerClosed = errors.New("websocket listener closed")
+
+	// errListenerSlow tells the hub to drop a listener whose event queue is full.
+	errListenerSlow = errors.New("websocket listener queue full")
+)
+
 // options for gorilla connection upgrader
 var upgraderV1 = websocket.Upgrader{
 	ReadBufferSize:  1024,
@@ -38,6 +48,8 @@ type msgListenerV1 struct {
 	hub     *msghub.Hub                // Global message hub
 	c       chan event.MessageMetadata // Queue of messages from Receive()
 	mailbox string                     // Name of mailbox to monitor, "" == all mailboxes
+	done    chan struct{}              // Closed (once) when the listener shuts down; c is never closed
+	once    sync.Once                  // Guards close(done)
 }
 
 // newMsgListenerV1 creates a listener and registers it.  Optional mailbox parameter will restrict
@@ -47,6 +59,7 @@ func newMsgListenerV1(hub *msghub.Hub, mailbox string) *msgListenerV1 {
 		hub:     hub,
 		c:       make(chan event.MessageMetadata, 100),
 		mailbox: mailbox,
+		done:    make(chan struct{}),
 	}
 	hub.AddListener(ml)
 	return ml
@@ -58,8 +71,18 @@ func (ml *msgListenerV1) Receive(msg event.MessageMetadata) error {
 		// Did not match the watched mailbox name.
 		return nil
 	}
-	ml.c <- msg
-	return nil
+
+	// Called on the hub goroutine: never block it.  An error makes the hub drop this listener.
+	select {
+	case ml.c <- msg:
+		return nil
+	case <-ml.done:
+		return errListenerClosed
+	default:
+		// Queue full, the client is too slow.
+		ml.closeDone()
+		return errListenerSlow
+	}
 }
 
 // Delete handles a deleted message.
@@ -119,19 +142,21 @@ func (ml *msgListenerV1) WSWriter(conn *websocket.Conn) {
 	// Handle messages from hub until msgListener is closed
 	for {
 		select {
-		case msg, ok := <-ml.c:
+		case msg := <-ml.c:
 			if err := conn.SetWriteDeadline(time.Now().Add(writeWaitV1)); err != nil {
 				slog.Warn().Err(err).Msg("Failed to set write deadline for msg")
-			}
-			if !ok {
-				// msgListener closed, exit
-				_ = conn.WriteMessage(websocket.CloseMessage, []byte{})
-				return
 			}
 			if conn.WriteJSON(metadataToHeader(&msg)) != nil {
 				// Write failed
 				return
 			}
+		case <-ml.done:
+			// msgListener closed, exit
+			if err := conn.SetWriteDeadline(time.Now().Add(writeWaitV1)); err != nil {
+				slog.Warn().Err(err).Msg("Failed to set write deadline for close")
+			}
+			_ = conn.WriteMessage(websocket.CloseMessage, []byte{})
+			return
 		case <-ticker.C:
 			// Send ping
 			if err := conn.SetWriteDeadline(time.Now().Add(writeWaitV1)); err != nil {
@@ -146,15 +171,17 @@ func (ml *msgListenerV1) WSWriter(conn *websocket.Conn) {
 	}
 }
 
-// Close removes the listener registration
+// Close removes the listener registration; safe to call more than once and from any goroutine
+// except the hub's own (RemoveListener queues an operation on the hub).
 func (ml *msgListenerV1) Close() {
-	select {
-	case <-ml.c:
-		// Already closed
-	default:
-		ml.hub.RemoveListener(ml)
-		close(ml.c)
-	}
+	ml.closeDone()
+	ml.hub.RemoveListener(ml)
+}
+
+// closeDone signals shutdown to the writer and to Receive.  The event queue c is never closed, so
+// a concurrent Receive cannot panic.
+func (ml *msgListenerV1) closeDone() {
+	ml.once.Do(func() { close(ml.done) })
 }
 
 // MonitorAllMessagesV1 is a web handler which upgrades the connection to a websocket and notifies
